@@ -1,4 +1,5 @@
-\* t_health: see checks/ringlookup_common.py (UNIVERSES) for what this universe is for
+\* t_health: states x health x zones: 3 single-token instances + tokenless, 4 states x {edge,stale}, zones 0..3
+\* (generated from UNIVERSES in checks/ringlookup_common.py: python3 checks/ringlookup_common.py --write-cfgs)
 CONSTANTS
   NK = 4
   Gaps = {1}
@@ -8,13 +9,16 @@ CONSTANTS
   Z = 3
   StateSet = {"ACTIVE", "LEAVING", "PENDING", "JOINING"}
   HbSet = {"edge", "stale"}
-  RFMax = 3
+  RFMax = 5
   Canon = 2
   WithRemove = FALSE
+  Excl = {}
   EmitOn = TRUE
+  EmitSets = TRUE
+  XMax = 0
 INIT Init
 NEXT Next
 VIEW View
-INVARIANTS TypeOK SizeOK ZoneOK ClockwiseFirst SlackExact WalkDefsAgree QuorumIntersection Emit
+INVARIANTS TypeOK SizeOK ZoneOK ClockwiseFirst SlackExact WalkDefsAgree QuorumIntersection ExpandedOK Emit
 PROPERTIES MinimalDisruption
 CHECK_DEADLOCK FALSE
